@@ -173,25 +173,47 @@ def flux_per_triangle(ctx, with_model=True):
 def paired_runs(ctx, stop_first=False):
     first = None
     combos = [("um", "mT", "uA"), ("nm", "uT", "nA"), ("mm", "T", "mA")] if ctx.quick else [("um", "mT", "uA"), ("nm", "uT", "nA"), ("mm", "T", "mA"), ("nm", "T", "uA"), ("um", "uT", "mA")]
-    cfgs = [dict(kind="bar", B=0.4e-3, I=3e-6, screening=False), dict(kind="ring", B=0.6e-3, I=None, screening=True)]
+    cfgs = [dict(kind="bar", B=0.4e-3, I=3e-6, screening=False), dict(kind="ring", B=0.6e-3, I=None, screening=True),
+            # the applied field is re-evaluated (and re-scaled from the user's units) at every step
+            dict(kind="ring", B=0.6e-3, I=None, screening=True, td=True), dict(kind="bar", B=0.5e-3, I=2e-6, screening=False, td=True)]
     for cfg in cfgs:
         ref_dev = device_in_units(cfg["kind"], "um", 5, lam=(0.5 if cfg["screening"] else 2.0))
         results = []
         for lu, fu, cu in combos:
             dev = device_in_units(cfg["kind"], lu, 5, mesh_from=ref_dev, lam=(0.5 if cfg["screening"] else 2.0))
-            out = os.path.join(str(ctx.work), f"c08_{cfg['kind']}_{lu}_{fu}_{cu}.h5")
+            out = os.path.join(str(ctx.work), f"c08_{cfg['kind']}_{int(bool(cfg.get('td')))}_{int(cfg['screening'])}_{lu}_{fu}_{cu}.h5")
             if os.path.exists(out):
                 os.remove(out)
             opts = runs.options(solve_time=0.1, dt_init=5e-3, save_every=4, output_file=out, field_units=fu, current_units=cu,
                                 include_screening=cfg["screening"], screening_tolerance=1e-4)
             cur = None if cfg["I"] is None else {"source": cfg["I"] / CURRENTS[cu], "drain": -cfg["I"] / CURRENTS[cu]}
-            sol = tdgl.solve(dev, opts, applied_vector_potential=cfg["B"] / FIELDS[fu], terminal_currents=cur)
+            if cfg.get("td"):
+                from tdgl.sources import ConstantField, LinearRamp
+
+                Aapp = ConstantField(cfg["B"] / FIELDS[fu], field_units=fu, length_units=lu) * LinearRamp(tmin=0.0, tmax=0.08)
+            else:
+                Aapp = cfg["B"] / FIELDS[fu]
+            try:
+                sol = tdgl.solve(dev, opts, applied_vector_potential=Aapp, terminal_currents=cur)
+            except RuntimeError as e:  # the run itself fails in this unit system
+                results.append((None, f"{type(e).__name__}: {str(e)[:120]}"))
+                continue
             frames = runs.parse_h5(sol.path)[0]
             Kphys = sol.current_density.to("A/m").magnitude
             results.append((frames, Kphys))
+        failed = [(c, r[1]) for c, r in zip(combos, results) if r[0] is None]
+        if failed:
+            if len(failed) == len(results):
+                raise V.Infra(f"C08 configuration {cfg} does not run in any unit system: {failed[0][1]}")
+            tag = dict(device=cfg["kind"], screening=cfg["screening"], time_dependent_field=bool(cfg.get("td")), units=list(failed[0][0]))
+            ctx.fail("unit-dependent-failure", f"the same physical problem runs in {len(results) - len(failed)} unit system(s) but fails in {failed[0][0]}: {failed[0][1]}", dict(tag, error=failed[0][1]))
+            first = first or dict(key="unit-dependent-failure", what=failed[0][1], **tag)
+            if stop_first:
+                return first
+            continue
         base, Kb = results[0]
         for (lu, fu, cu), (fr, Kp) in zip(combos[1:], results[1:]):
-            tag = dict(device=cfg["kind"], units=[lu, fu, cu], screening=cfg["screening"])
+            tag = dict(device=cfg["kind"], units=[lu, fu, cu], screening=cfg["screening"], time_dependent_field=bool(cfg.get("td")))
             for fa, fb in zip(base, fr):
                 da, db = fa["data"], fb["data"]
                 errs = dict(abs_psi=float(np.abs(np.abs(da["psi"]) - np.abs(db["psi"])).max()), Js=float(np.abs(da["supercurrent"] - db["supercurrent"]).max()),
@@ -200,7 +222,7 @@ def paired_runs(ctx, stop_first=False):
                 w = max(errs.values())
                 tolr = 1e-9 if not cfg["screening"] else 1e-6  # the screening loop stops on a tolerance: iteration counts may differ by rounding
                 ctx.tol(f"paired runs, screening={cfg['screening']}", w, tolr)
-                ctx.case((cfg["kind"], lu, fu, cu, fa["step"]), nontrivial=True)
+                ctx.case((cfg["kind"], bool(cfg.get("td")), cfg["screening"], lu, fu, cu, fa["step"]), nontrivial=True)
                 ctx.count("frame_pairs")
                 if fa["step"] != fb["step"] or w > tolr:
                     ctx.fail("unit-dependent-solution", f"step {fa['step']}: dimensionless solution differs between unit systems: {errs}", dict(tag, step=fa["step"], errs=errs))
